@@ -317,9 +317,16 @@ def enabled(st: State) -> List[Tuple[Any, ...]]:
 
 def rebuild(hist: Tuple[Any, ...]) -> State:
     st = State()
+    fresh: List[Tuple[str, str]] = []
+    try:  # a list that was just created knows no names (names kept per class or per module would show here)
+        if len(st.nil) or list(st.nil.keys()) or st.nil.get("a") is not None:
+            fresh.append(("fresh-list-is-not-empty", f"a new list has the names {list(st.nil.keys())[:6]}"))
+    except Exception as e:  # noqa
+        fresh.append(("fresh-list-is-not-empty", f"{type(e).__name__}: {e}"))
     for op in hist:
         st.problems = []
         apply(st, op)
+    st.problems = fresh + st.problems
     return st
 
 
@@ -343,7 +350,7 @@ def explore(unit: Tuple[Tuple[Any, ...], int]) -> Part:
     part = Part()
     seen: set = set()
     res = bfs(init=State, events=enabled, step=None, canon=lambda s: digest(canon(s)), check=check,
-              depth=depth, seen=seen, start_hist=start, rebuild=rebuild)
+              depth=depth, seen=seen, start_hist=start, rebuild=rebuild, max_violations=40)
     part.count("transitions", res.transitions)
     part.count("evaluations", res.transitions)
     part.sets["states"] = seen
